@@ -373,6 +373,11 @@ class Gen:
             derive.append({"with": ctx_ops, "isWith": True})
         hooks = []
         for j, hk in enumerate(abs_prog["hooks"]):
+            if hk in ("ts", "caller"):
+                # the library's own hooks: With().Timestamp() / With().Caller(); the field appears at hook position
+                names["hooks"].append("time" if hk == "ts" else "caller")
+                derive.append({"with": [{"m": "Timestamp" if hk == "ts" else "Caller"}], "isWith": True})
+                continue
             hname = "h%d" % (j + 1)
             names["hooks"].append(hname)
             derive.append({"hook": {"id": j + 1, "kind": hk, "k": b64(hname)}})
